@@ -175,7 +175,7 @@ theorem T_readConstant (c : UInt8) : T P0 (readConstant cx c) := by unfold readC
 
 theorem T_doReadReference : T P0 (doReadReference cx) := by
   unfold doReadReference
-  have := T_readUIntUB pm (P0 := P0) cx.h.num_vars_and_exprs
+  have := T_readUIntUB pm (P0 := P0) (Site.ubRef cx.h)
   repeat tstep
 theorem T_readReference : T P0 (readReference cx) := by
   unfold readReference
@@ -207,7 +207,7 @@ theorem T_readNumericOp (op : Nat) : T P0 (readNumericOp cx rec op) := by
 theorem T_readNumericC (code : UInt8) (iz : Bool) : T P0 (readNumericC cx rec code iz) := by
   unfold readNumericC
   have h3 := hrec .sym
-  have := T_readUIntUB pm (P0 := P0) cx.h.num_funcs
+  have := T_readUIntUB pm (P0 := P0) (Site.ubCall cx.h)
   have := T_readConstant pm (P0 := P0) code
   have := T_readOpCode pm (P0 := P0)
   have := T_doReadReference pm (P0 := P0)
@@ -285,13 +285,13 @@ variable {P0 : Nat}
 
 theorem T_readLinearTerms (n : Nat) (silent : Bool) : T P0 (readLinearTerms cx n silent) := by
   unfold readLinearTerms
-  have := T_readUIntUB pm (P0 := P0) cx.h.num_vars
+  have := T_readUIntUB pm (P0 := P0) (Site.ubTermVar cx.h)
   repeat tstep
 
 theorem T_readLinearExpr (isObj : Bool) : T P0 (readLinearExpr cx isObj) := by
   unfold readLinearExpr
   have := fun ub => T_readUIntUB pm (P0 := P0) ub
-  have h2 := T_readUIntLU pm (P0 := P0) 1 (cx.h.num_vars + 1)
+  have h2 := T_readUIntLU pm (P0 := P0) Site.lbTerms (Site.ubTerms cx.h)
   have h3 := fun n b => T_readLinearTerms pm (P0 := P0) n b
   repeat (first | exact this _ | exact h3 _ _ | tstep)
 
